@@ -67,6 +67,7 @@ type Account struct {
 	UserID    string
 	SignedTx  []string
 	ReplaceTx []string
+	ACLFault  string // how the access-control service answers checkKeys for THIS account: "", status, empty, garbled, noaddr
 }
 
 func (a *Account) AddrString() string { return base58.CheckEncode(a.Addr[1:], a.Addr[0]) }
@@ -126,6 +127,9 @@ func (a *ACL) fault(fn string) (pb.Response, bool) {
 		return ok(nil), true
 	case "garbled":
 		return ok([]byte{0xff, 0xfe, 0x01, 0x02, 0x03}), true
+	case "noaddr": // a well-formed "ok" reply that carries no address
+		data, _ := proto.Marshal(&fpb.AclResponse{Account: &fpb.AccountInfo{KycHash: "kyc"}})
+		return ok(data), true
 	}
 	return pb.Response{}, false
 }
@@ -148,6 +152,16 @@ func (a *ACL) Invoke(args [][]byte) pb.Response {
 		acc, found := a.byKeys[keysKey(presented)]
 		if !found {
 			return errResp("acl: keys not found")
+		}
+		if acc.ACLFault != "" {
+			save := a.Fault[fn]
+			a.Fault[fn] = acc.ACLFault
+			r, _ := a.fault(fn)
+			a.Fault[fn] = save
+			if save == "" {
+				delete(a.Fault, fn)
+			}
+			return r
 		}
 		var kts []fpb.KeyType
 		switch a.KeyTypes {
